@@ -603,7 +603,13 @@ static void run(void)
 	evstore = sim_alloc_guarded(evdepth * sizeof(evt_t), 32, 0xc3);
 	simrt_region_add(evq, sizeof(*evq), SIMRT_SHARED, "event-fibre-descriptor");
 	simrt_region_add(evstore, evdepth * sizeof(evt_t), SIMRT_SHARED, "event-storage");
-	fibre_eventq_init(evq, handler_fibre, evstore, evdepth * sizeof(evt_t), sizeof(evt_t));
+	if (sim_choose(2)) {
+		fibre_eventq_init(evq, handler_fibre, evstore, evdepth * sizeof(evt_t), sizeof(evt_t));
+	} else {
+		/* the static initialiser (with run-time values) describes the same event queue */
+		fibre_eventq_t init = FIBRE_EVENTQ_VAR_INIT(handler_fibre, evstore, evdepth * sizeof(evt_t), sizeof(evt_t));
+		memcpy(evq, &init, sizeof(init));
+	}
 	fib[FE] = &evq->fibre;
 	fibre_entrypoint_t *fns[NFIB] = { handler_fibre, yielding_fibre, sleeping_fibre, waiting_fibre, waiting_fibre };
 	for (int x = 1; x < nfib; x++) {
